@@ -428,16 +428,23 @@ def run_localpool(case):
                 res.violation("state-mismatch:local", "local pool: task killed by its time limit shown as %r (pool state %s)" % (table.get("bad"), pool.states().get(ktid)))
             # ---- pool restart: ids start again from 0; a stale tracked id then aliases another task
             pool.restart()
+            # other clients use the new pool instance: as many tasks as the old instance had handed out
             tid0 = None
-            for _ in range(tid["ok"] + 1):
+            for _ in range(len(tid) + 2):
                 tid0 = pool.raw_enqueue("unrelated", "sleep 30", proj.root, time_limit=None, deps=[])
+            new_ids = set(pool.states())
+            res.count("restart_id_overlap", len(new_ids & set(tid.values())))
             r = cli.gwf(proj.root, ["status"], env, audit=False)
             table = dict(cli.parse_status(r.out))
             res.mon("rows_checked")
             res.mon("pool_rows")
             # target "ok" tracked id 0 of the OLD pool; the new pool's task 0 is someone else's running task.
             if table.get("ok") != "completed":
-                res.violation("local-restart-id-alias", "after a pool restart target 'ok' (its own job finished in the previous pool instance, output present) is shown as %r because the new pool reuses id %s for an unrelated task" % (table.get("ok"), tid0), table=table)
+                res.violation("local-restart-id-alias", "after a pool restart target 'ok' (its own job finished in the previous pool instance, output present) is shown as %r; ids of the new pool instance %s, tracked ids %s" % (table.get("ok"), sorted(new_ids), tid), table=table)
+            for n_, w_ in (("bad", "shouldrun"), ("slow", "shouldrun")):
+                # jobs of the previous instance are gone: no record => file-based decision (their outputs are missing)
+                if n_ != "bad" and table.get(n_) != w_:
+                    res.violation("local-restart-id-alias", "after a pool restart %s is shown as %r, expected %s (no record in the new pool instance)" % (n_, table.get(n_), w_), table=table)
         res.sig = ("local", "pool", case["foreign_seed"] % 2)
         res.nontrivial = True
     return res
